@@ -75,7 +75,7 @@ def spec(th, seed):
                  'rgba/stpq aliases, &m[c], &m[c][r], value_ptr (const and non-const) addresses, then distinct tags are written through '
                  'operator[] / named members / value_ptr / raw bytes and read back through the other access paths and as a byte image '
                  '(objects live in a poisoned, guarded buffer), make_vecL(vecL), make_vecL/make_matCxR/make_matC/make_quat(ptr) round trips '
-                 'for the default qualifier, length() value and type; plus 82-158 (depending on the configuration) documented typedef names (type_precision.hpp, '
+                 'for the default qualifier, length() value and type; plus every documented vec/mat/qua typedef name, 512 or 864 depending on the configuration, generated from the naming convention (core, ext, type_precision.hpp, '
                  'type_aligned.hpp) and the struct of manual section 2.10. The facts are deterministic per build; the tag values come from a '
                  'random stream (random words, all-distinct ramps, one-hot and one-cold patterns, byte ramps)'),
         'assumptions': [
